@@ -20,7 +20,7 @@ from ..cfg import CFG, node_calls
 from ..partition import MiniInterp, Opaque, FRESH
 
 LEVEL = "other"
-TECHNIQUE = ('stream-filter effect analysis by branch partition over token types and over the URI predicates (exhaustive enumeration of predicate outcomes, helpers interpreted, no solver); CFG dominance of allow-list tests over every keeping statement; stripping patterns evaluated on representatives; total-lookup lint on constant tables')
+TECHNIQUE = ('stream-filter effect analysis by branch partition over token types and over the URI predicates (exhaustive enumeration of predicate outcomes, helpers interpreted, no solver); CFG dominance of allow-list tests over every keeping statement; stripping patterns evaluated on representatives; total-lookup lint on constant tables; source evaluation of the URI gate (concretised predicates), of the SVG url() loop and of the CSS declaration loop on representatives')
 CLAIM = ("The sanitizer's gates are placed so that, on every path, a tag token leaves only as an allow-listed "
          'tag or as inert text, non-allow-listed attributes are removed before anything else and never re- '
          'added, a URI attribute survives only under the allowed-scheme / allowed-content-type predicates '
@@ -28,7 +28,7 @@ CLAIM = ("The sanitizer's gates are placed so that, on every path, a tag token l
          'consulted, and every kept CSS declaration passed an allow-list test after url() stripping. Holds for '
          'custom lists as well because the lists are symbolic. The stripped class covers white space and all '
          'control characters (general category Cc); every stripping substitution is global.'
-         ' The URI gate deletes a rejected attribute once in every case; non-local url() references in SVG presentation attributes are stripped whatever their case or length; constant tables are not indexed with token-derived keys; CSS shorthand families come from a list written into the function (known finding).')
+         ' The URI gate deletes a rejected attribute once in every case; non-local url() references in SVG presentation attributes are stripped whatever their case or length; constant tables are not indexed with token-derived keys; CSS shorthand families come from a list written into the function (known finding). The declaration loop of sanitize_css, the URI gate and the SVG url() loop are run on representatives under small configured lists: a shorthand declaration is kept only when every keyword is allowed, a colour or a length; unclosed and escaped url( references go.')
 NOT_DECIDED = ("whether the URL normalisation matches what browsers do; regular-language claims about the CSS gauntlet "
                "('never url()' holds only up to the stripper's pattern); the contents of the allow-lists themselves.")
 MODULES = ["filters/sanitizer.py", "filters/base.py", "constants.py"]
